@@ -87,6 +87,13 @@ Theorem c20_refcount : forall (S_ C_ : nat) (ops : list rop),
 Proof. exact refcount_main. Qed.
 Print Assumptions c20_refcount.
 
+(* observation outside the preconditions (client obligation, notes/C20.md): ValueMap::clear() while a NotifiedValue stays bound,
+   then a second parse of that option = write through the address of a destroyed object (reproduced on the real code under ASan). *)
+Example c20_observation_notified_value_after_map_clear :
+  let s := final 0 1 [7] [OParse 0 5 1] in
+  err s = false /\ err (stale_clear 0 1 s) = false /\ err (snd (step 0 1 [7] (stale_clear 0 1 s) (OParse 0 6 1))) = true.
+Proof. exact notified_value_after_map_clear_errs. Qed.
+
 (* ---- non-vacuity ---- *)
 Example c20_valuemap_hypotheses_hold :
   let s := final 1 1 [4] [OParse 0 5 1] in
